@@ -192,6 +192,7 @@ INTERPRET_PREFIXES = ("ofxtools", "contracts.spec", "spec")
 class Interp:
     def __init__(self, timeout_ms=10000):
         self.index = SourceIndex()
+        self.interpret_also = set()      # pure-Python library functions a harness asks to have interpreted from their source
         self.solver = z3.Solver()
         self.timeout_ms = timeout_ms
         self.domains = {}          # z3 Int var -> finite list of values (registered by argument descriptors)
@@ -387,7 +388,7 @@ class Interp:
             return "discharged", None, 0.0
         neg = z3.BoolVal(True) if claim is False else z3.Not(claim)
         pcs = [c for c in pc if c is not True]
-        r, m = self._solve(pcs + [neg], timeout_ms or (800 if self.domains else 5000))
+        r, m = self._solve(pcs + [neg], timeout_ms or (800 if self.domains else 10000))
         if r == z3.unknown and self.domains:
             # finite-domain tabulation (equivalence-preserving, domain membership re-proved here)
             from .tabulate import refine_domains, tabulate_forms
@@ -541,7 +542,7 @@ class Interp:
 
     def is_interpretable(self, fn):
         mod = getattr(fn, "__module__", None) or ""
-        return isinstance(fn, types.FunctionType) and mod.startswith(INTERPRET_PREFIXES)
+        return isinstance(fn, types.FunctionType) and (mod.startswith(INTERPRET_PREFIXES) or fn in self.interpret_also)
 
     def call(self, f, args, kwargs=None):
         kwargs = kwargs or {}
@@ -1180,6 +1181,10 @@ class Interp:
             return self.ev(e.body, env)
         if z3.is_false(c):
             return self.ev(e.orelse, env)
+        if _constructs(e.body) or _constructs(e.orelse):
+            # an arm that builds an object is run like the if/else statement it abbreviates: one path per arm
+            # (merging would carry a guarded heap object through everything that follows)
+            return self.ev(e.body, env) if self.branch(c) else self.ev(e.orelse, env)
         return self.merge_arms(c, lambda: self.ev(e.body, env), lambda: self.ev(e.orelse, env))
 
     def merge_arms(self, c, fa, fb):
@@ -1514,6 +1519,17 @@ def _as_load(t):
     t2 = copy.copy(t)
     t2.ctx = ast.Load()
     return t2
+
+
+def _constructs(e):
+    """syntactic: the expression calls something spelled like a class (Capitalised name)"""
+    for n in ast.walk(e):
+        if isinstance(n, ast.Call):
+            f = n.func
+            nm = f.id if isinstance(f, ast.Name) else (f.attr if isinstance(f, ast.Attribute) else "")
+            if nm[:1].isupper():
+                return True
+    return False
 
 
 def _simple_expr(e):
